@@ -473,8 +473,10 @@ Definition roots_ok (M : smodel) : bool :=
 (** a schema description needs a schema definition to be written down in SDL *)
 Definition desc_ok (M : smodel) : bool :=
   m_explicit M || (match m_desc M with None => true | Some _ => false end).
+(** user directives do not redefine one another or a built-in directive *)
+Definition dirs_ok (M : smodel) : bool := nodup_str (map md_name (m_dirs M) ++ map md_name builtin_dirs).
 Definition model_ok (M : smodel) : bool :=
-  names_ok M && no_shadow_root M && implicit_roots_ok M && roots_ok M && desc_ok M.
+  dirs_ok M && no_shadow_root M && implicit_roots_ok M && roots_ok M && desc_ok M.
 (** schema definitions of a parsed document carry a real (non built-in) position *)
 Definition parsed_positions (D : tsdoc) : Prop := Forall (fun sd => pbuiltin (sd_pos sd) = false) (schema_defs D).
 Definition parsed_positions_b (D : tsdoc) : bool := forallb (fun sd => negb (pbuiltin (sd_pos sd))) (schema_defs D).
